@@ -43,6 +43,9 @@ SPEC = {
         "general position (generator filter) as for C16; clip modes left/right (the quantifier's `clip modes that keep a "
         "bounded region`); Clip::None is run with the reduced oracle (every cell anchored, points of interest are nodes)",
         "maps of the correspondence stream are well-formed 2-maps (grids, grids with holes, loaded polygon soups)",
+        "the surface theorems of Props/C17Surf.lean assume a map without edge and face anchors before the call (what "
+        "capture_geometry returns: node anchors on vertices only); with pre-anchored edges/faces only the frame, totality and "
+        "assertion theorems of Props/C17.lean apply",
         "fewer than 2^32 darts",
     ],
     "rule": "quick: ~70 geometries (same families as C16) x clip {left, right, none} x points of interest {all, some, none}; "
